@@ -90,6 +90,9 @@ func (s *sim) drawConfig() {
 	if prof == "crash" {
 		c.Crashes = 1 + t.Choose("ncrash", 5)
 	}
+	if (prof == "faultfree" || prof == "net" || prof == "crash") && t.Permille("minblockgen", 200) {
+		c.MinBlockGen = true
+	}
 	if prof == "fastsync" {
 		c.TargetHeight = int64(t.Range("target.fs", 8, 11))
 		c.LagHeights = int64(t.Range("lag.h", 6, 7))
@@ -126,6 +129,9 @@ func (s *sim) drawConfig() {
 			}
 		case "forge":
 			b.forge = rc.Property
+			if rc.Property == "C08" && c.TxCount < 4 {
+				c.TxCount = 4 + t.Choose("txs.c08", 8) // bodies with transactions to swap and strip
+			}
 			b.equivocate = t.Permille("forge.equiv", 200)
 		case "fastsync":
 			// the Byzantine validator takes part in consensus honestly (the others need its votes while
@@ -149,6 +155,7 @@ func (s *sim) drawConfig() {
 	rc.Config["corrupt_pm"] = c.CorruptPm
 	rc.Config["crashes"] = c.Crashes
 	rc.Config["partitions"] = c.Partitions
+	rc.Config["minimize_block_gen"] = c.MinBlockGen
 	rc.Config["split_polka_pm"] = c.SplitPolkaPm
 	rc.Config["drop_precommit_pm"] = c.DropPrecommitPm
 	rc.Config["txs"] = c.TxCount
@@ -156,6 +163,16 @@ func (s *sim) drawConfig() {
 
 func (s *sim) scheduleWorkloadAndFaults() {
 	t := s.tape
+	if s.cfg.MinBlockGen {
+		// no empty blocks: the chain only moves while transactions keep arriving
+		s.rc.Probe("minimize_block_gen")
+		var tick func()
+		tick = func() {
+			s.submitTx(0)
+			s.schedule(time.Duration(150+s.tape.Choose("mbg.gap", 400))*time.Millisecond, "tx", tick)
+		}
+		s.schedule(50*time.Millisecond, "tx", tick)
+	}
 	horizon := int(s.cfg.TargetHeight) * 400 // ms, rough span of the run
 	for i := 0; i < s.cfg.TxCount; i++ {
 		kind := 0
